@@ -10,7 +10,7 @@ St0 == [recs |-> 0, hists |-> 0, ops |-> 0, short |-> 0, errs |-> 0, pendings |-
         lenient |-> 0, hints |-> 0, splits |-> 0, paritems |-> 0, leafends |-> 0, pools |-> 0, calls_differ |-> 0]
 SNone == [pos |-> Zero, fin |-> FALSE, msg |-> "", haslen |-> FALSE, len |-> Zero, beh |-> "AndLeave", fm |-> ""]
 PNone == [n |-> 0, c |-> 0, pos0 |-> Zero]
-ParOps == {"split", "item", "end", "done"}
+ParOps == {"split", "item", "items", "end", "done"}
 
 SeqRule(S1, r) ==
     IF ~Transparent(r) THEN "Transparent"
@@ -46,7 +46,7 @@ Count(r, S1) ==
                !.hints = @ + (IF r.op = "size_hint" THEN 1 ELSE 0),
                !.calls_differ = @ + (IF r.tcalls_same THEN 0 ELSE 1)]
 ParCount(r) ==
-    [st EXCEPT !.recs = @ + 1, !.ops = @ + 1, !.splits = @ + (IF r.op = "split" THEN 1 ELSE 0), !.paritems = @ + (IF r.op = "item" THEN 1 ELSE 0),
+    [st EXCEPT !.recs = @ + 1, !.ops = @ + 1, !.splits = @ + (IF r.op = "split" THEN 1 ELSE 0), !.paritems = @ + (IF r.op \in {"item", "items"} THEN 1 ELSE 0),
                !.leafends = @ + (IF r.op = "end" THEN 1 ELSE 0), !.pools = @ + (IF r.op = "pool" THEN 1 ELSE 0)]
 
 Init == /\ i = 1 /\ S = SNone /\ P = PNone /\ dead = TRUE /\ bad = <<>> /\ st = St0
